@@ -21,7 +21,7 @@ EXPLANATION = (
     "and no name comparison (value slices ignore guards of which only one outcome reaches the access; accesses that can only run "
     "on directed graphs are exempt).  R-C02-4 kind refusals of the query API (table frozen from the statement) guard every "
     "non-error return; every NodeNotFound/EdgeNotFound is conditional on a failed lookup.  R-C02-5 parallel edges are appended "
-    "(push) in both stores and read back in list order.  R-C02-10 in add_edge the position-keyed adjacency sets receive, under the same test of specs.directed, the update the name-keyed ones receive (same endpoint as key and as member).  R-C02-11 a node list taken from the raw traversal rows is de-duplicated on every path that returns it.  NOT decided: that queries return the right sets (value-level)."
+    "(push) in both stores and read back in list order.  R-C02-10 in add_edge the position-keyed adjacency sets receive, under the same test of specs.directed, the update the name-keyed ones receive (same endpoint as key and as member).  R-C02-11 a node list taken from the raw traversal rows is de-duplicated on every path that returns it.  R-C02-12: breadth_first_search expands a node through its successors on directed graphs.  NOT decided: that queries return the right sets (value-level)."
 )
 TRUSTED = ["rustc MIR construction and privacy checking", "std HashMap/Vec semantics", "over-approximated dependence (absence of dependence is definite)"]
 
@@ -60,6 +60,9 @@ def run(ctx):
     rule6(ctx, prog, flows)
     rule7(ctx, prog, flows)
     rule11(ctx, prog, flows)
+    from props.c10 import bfs_expansion
+
+    bfs_expansion(ctx, prog, flows, "R-C02-12", "on a directed graph the search then lists nodes that no chain of get_successor_nodes steps reaches: breadth_first_search disagrees with the successor queries and with the stored edges' direction")
     from graphrules import no_edge_identity_collections
 
     no_edge_identity_collections(ctx, prog, "R-C02-9", ("graph::",), "on a multi-edge graph not all parallel edges are retrievable through this query, and it disagrees with get_all_edges()")
